@@ -166,7 +166,48 @@ def mk_decl(decl):
         return Command(arg, result=None, **kw)(mk_func(decl.get('sig')))
     if k == 'method':
         return mk_func(decl.get('sig'))
+    if k == 'prop':
+        return mk_property(decl)
     raise ValueError(k)
+
+
+def mk_property(decl):
+    """a module-level `Property(...)` written in a class body"""
+    from frappy import datatypes as D
+    from frappy.properties import Property
+    dt = {'str': D.StringType, 'int': D.IntRange, 'float': D.FloatRange}[decl['dt']]()
+    kw = {k: decl[k] for k in ('default', 'value', 'extname', 'export') if k in decl}
+    return Property('custom property', dt, **kw)
+
+
+AUTO_PROPS = ('implementation', 'interface_classes', 'features')      # set by Module.__init__ from the class chain
+
+
+def pexport(po, v):
+    """a property value in the form it is exported in (None: UNSET)"""
+    from frappy.properties import UNSET
+    if v is UNSET:
+        return None
+    try:
+        v = po.datatype.export_value(v)
+    except Exception:       # simple validators have no export_value
+        pass
+    return jtext(canon(v))
+
+
+def property_objects(cls):
+    """the module-level Property objects a class is described with: `propertyDict`, for a mixin outside HasProperties
+    the Property objects of its `__dict__`"""
+    from frappy.properties import Property
+    pd = getattr(cls, 'propertyDict', None)
+    if pd is None:
+        pd = {k: v for k, v in cls.__dict__.items() if isinstance(v, Property)}
+    return pd
+
+
+def dump_property(po):
+    """[value | None, default, extname, export] of a Property object"""
+    return [pexport(po, po.value), pexport(po, po.default), po.extname, jtext(canon(po.export))]
 
 
 # ----------------------------------------------------------------------------------------
@@ -318,12 +359,13 @@ def dump_owner(owner, is_class):
     for aname, aobj in accessibles.items():
         accs.append([aname, dump_accessible(aobj, objs, aname, None if is_class else owner)])
     if is_class:
-        pd = getattr(owner, 'propertyDict', None) or {}
-        from frappy.properties import UNSET
-        mprops = sorted([pn, canon(po.value)] for pn, po in pd.items() if po.value is not UNSET)
-    else:
-        mprops = sorted([k, canon(v)] for k, v in owner.exportProperties().items() if k != 'implementation')
-    return {'acc': accs, 'mprops': mprops}, objs
+        pd = property_objects(owner)
+        mprops = [[pn] + dump_property(po) for pn, po in pd.items()]
+        objs += [('@prop/' + pn, po) for pn, po in pd.items()]
+        return {'acc': accs, 'mprops': mprops}, objs
+    mprops = sorted([k, jtext(canon(v))] for k, v in owner.exportProperties().items() if k != 'implementation')
+    mvals = [[pn, pexport(po, owner.propertyValues.get(pn, po.default))] for pn, po in owner.propertyDict.items()]
+    return {'acc': accs, 'mprops': mprops, 'mvals': mvals}, objs
 
 
 def partition(all_objs):
@@ -360,8 +402,8 @@ class _Srv:
 def builtin_owners():
     import frappy.modules as M
     import frappy.mixins as X
-    return {'Readable': M.Readable, 'Writable': M.Writable, 'Drivable': M.Drivable, 'HasControlledBy': X.HasControlledBy,
-            'HasOutputModule': X.HasOutputModule}
+    return {'Module': M.Module, 'Readable': M.Readable, 'Writable': M.Writable, 'Drivable': M.Drivable,
+            'HasControlledBy': X.HasControlledBy, 'HasOutputModule': X.HasOutputModule}
 
 
 def snapshot(classes, insts):
@@ -530,6 +572,41 @@ def gen_member(rng, depth):
     if depth < 2 and rng.random() < 0.15:
         return gen_dt(rng, rng.choice(['array', 'tuple', 'limits']), depth)
     return gen_dt(rng, rng.choice(['float', 'float', 'int', 'string', 'enum', 'bool']), depth)
+
+
+# module-level properties: the ones of frappy's Module that a class body or a configuration may set, and custom ones
+MPROP_ROOT = {'group': 'str', 'visibility': 'vis', 'slowinterval': 'interval', 'meaning': 'meaning'}
+MPROP_CUSTOM = {'vendor': 'str', 'serial': 'int', 'gain': 'float'}
+MPROP_VALUES = {'str': ['cryo', 'magnet', 'x'], 'vis': [1, 2, 3], 'interval': [20, 70, 0.5], 'meaning': [['temperature', 10], ['x', 1]],
+                'int': [1, 7, 42], 'float': [0.5, 2, 10]}
+MPROP_BAD = {'str': 5, 'vis': 9, 'interval': 1000, 'meaning': 'x', 'int': 'a', 'float': 'b'}
+
+
+def gen_mvalue(rng, kind):
+    return MPROP_BAD[kind] if rng.random() < 0.06 else rng.choice(MPROP_VALUES[kind])
+
+
+def gen_mdecl(rng, pn, known, is_mixin):
+    """a class-body entry under the name of a module property: mostly a bare value for a known property (the Property is
+    copied for the class), or a Property(...) declaration (new custom property, or replacing an inherited one)"""
+    kind = known.get(pn) or MPROP_CUSTOM.get(pn) or MPROP_ROOT[pn]
+    if (pn in known or is_mixin and pn in MPROP_ROOT) and rng.random() < 0.85:
+        if rng.random() < 0.03:
+            return kind, {'k': 'method'}
+        return kind, {'k': 'value', 'v': gen_mvalue(rng, kind)}
+    if pn in MPROP_ROOT:
+        return kind, {'k': 'value', 'v': gen_mvalue(rng, kind)}
+    d = {'k': 'prop', 'dt': kind}
+    if rng.random() < 0.85:
+        d['default'] = rng.choice(MPROP_VALUES[kind])
+    if rng.random() < 0.3:
+        d['value'] = rng.choice(MPROP_VALUES[kind])
+    r = rng.random()
+    if r < 0.4:
+        d['extname'] = pn
+    elif r < 0.7:
+        d['export'] = rng.choice([True, True, 'always'])
+    return kind, d
 
 
 def gen_dt(rng, kind=None, depth=0):
@@ -739,6 +816,8 @@ def gen_program(rng, big):
     generated, so that later operations refer to what exists.  -> (program, init, steps)"""
     ex = Exec()
     kinds = {r: dict(v) for r, v in ROOT_KINDS.items()}      # class name -> {aname: kind} (generator's estimate)
+    mkinds = {r: dict(MPROP_ROOT) for r in ROOT_KINDS}       # class name -> {module property name: kind}
+    mvalued = {r: set() for r in ROOT_KINDS}                 # class name -> module properties carrying a value in its chain
     mixins = []
     modules = []
     insts = {}
@@ -747,7 +826,7 @@ def gen_program(rng, big):
     ncls = 0
     for _ in range(nops):
         r = rng.random()
-        if r < 0.55 or not modules:
+        if r < 0.45 or not modules:
             ncls += 1
             name = 'K%d' % ncls
             is_mixin = rng.random() < 0.22
@@ -795,12 +874,35 @@ def gen_program(rng, big):
                         d = {'k': 'param', 'desc': rng.choice(DESCS), 'dt': dt, 'props': gen_pprops(rng, dt['t']), 'inherit': True}
                 decls.append([aname, d])
                 est[aname] = decl_kind(d, prev)
+            mest, mval = {}, set()
+            for b in reversed(bases):
+                mest.update(mkinds.get(b, {}))
+                mval |= mvalued.get(b, set())
+            for _ in range(rng.choice([0, 0, 0, 1, 1, 2])):
+                r = rng.random()
+                if mval and r < 0.45:        # a second level: over a property that carries a value already
+                    pn = rng.choice(sorted(mval))
+                elif mest and r < 0.8:
+                    pn = rng.choice(sorted(mest))
+                elif is_mixin and r < 0.9:
+                    pn = rng.choice(sorted(MPROP_ROOT))
+                else:
+                    pn = rng.choice(sorted(MPROP_CUSTOM))
+                if any(a == pn for a, _ in decls):
+                    continue
+                kind, d = gen_mdecl(rng, pn, mest, is_mixin)
+                decls.insert(rng.randint(0, len(decls)), [pn, d])
+                mest[pn] = kind
+                if d['k'] == 'value' or 'value' in d:
+                    mval.add(pn)
             op = {'op': 'class', 'name': name, 'bases': bases, 'mixin': is_mixin, 'decls': decls}
             ops.append(op)
             if ex.apply(op)['outcome'] == 'ok':
                 kinds[name] = est
+                mkinds[name] = mest
+                mvalued[name] = mval
                 (mixins if is_mixin else modules).append(name)
-        elif r < 0.8 or not insts:
+        elif r < 0.72 or not insts:
             cls = rng.choice(modules)
             if insts and rng.random() < 0.4:     # a sibling of an existing instance (same class, other configuration)
                 cls = insts[rng.choice(sorted(insts))]
@@ -827,8 +929,10 @@ def gen_program(rng, big):
                 cfg['value'] = dict(cfg.get('value') or {}, unit=rng.choice(['K', 'mm', 'V']))
             if rng.random() < 0.04:
                 cfg['nosuch'] = {'value': 1}
-            if rng.random() < 0.15:
-                cfg['group'] = rng.choice(['mg1', 'mg2'])
+            if rng.random() < 0.3 and mkinds.get(cls):       # module properties from the configuration
+                pn = rng.choice(sorted(mkinds[cls]))
+                v = gen_mvalue(rng, mkinds[cls][pn])
+                cfg[pn] = {'value': v} if rng.random() < 0.3 else v
             op = {'op': 'inst', 'name': name, 'cls': cls, 'cfg': cfg}
             ops.append(op)
             if ex.apply(op)['outcome'] == 'ok':
@@ -898,6 +1002,8 @@ def wire_decl(decl):
                 'arg': obj_tree(_argument_of(decl)), 'props': wire_props(decl.get('props') or {})}
     if k == 'value':
         return {'k': 'value', 'v': jtext(canon(decl['v']))}
+    if k == 'prop':       # the Property object as it is built, before __set_name__
+        return dict(zip(('value', 'default', 'extname', 'export'), dump_property(mk_property(decl))), k='prop')
     if k == 'method':
         sig = decl.get('sig')
         opt = None
@@ -913,7 +1019,10 @@ def wire_op(op, outcome, mro):
         return {'op': 'class', 'ok': ok, 'name': op['name'], 'mro': mro or [op['name']], 'module': not op.get('mixin'),
                 'decls': [[a, wire_decl(d)] for a, d in op['decls']]}
     if op['op'] == 'inst':
-        cfg = [[a, wire_props(c)] for a, c in op['cfg'].items() if isinstance(c, dict)]
+        # a module property is configured as `name = value` or `name = {'value': value}` (modulebase.py:372-384)
+        cfg = [[a, wire_props(c) if isinstance(c, dict) else [['value', jtext(canon(c))]]] for a, c in op['cfg'].items() if c is not None]
+        if 'description' not in op['cfg']:
+            cfg.append(['description', [['value', jtext('module')]]])       # what run_op fills in
         return {'op': 'inst', 'ok': ok, 'name': op['name'], 'cls': op['cls'], 'cfg': cfg}
     if op['kind'] == 'write':      # a write changes the value only: not an operation of the model
         return {'op': 'setprop', 'ok': False, 'inst': op['inst'], 'par': op['par'], 'key': 'value', 'val': jtext(canon(op['val']))}
@@ -934,10 +1043,14 @@ def prelude_ops():
     import frappy.modules as M
     from frappy.params import Accessible, Parameter
     known = {M.Module: 'Module', M.Readable: 'Readable', M.Writable: 'Writable', M.Drivable: 'Drivable'}
-    items = [('Module', M.Module, True)] + [(n, c, n in ROOTS) for n, c in builtin_owners().items()]
+    from frappy.properties import Property
+    items = [(n, c, n in ROOTS) for n, c in builtin_owners().items()]
     for name, cls, module in items:
         decls = []
         for aname, aobj in cls.__dict__.items():
+            if isinstance(aobj, Property):
+                decls.append([aname, dict(zip(('value', 'default', 'extname', 'export'), dump_property(aobj)), k='prop')])
+                continue
             if not isinstance(aobj, Accessible):
                 continue
             own = dict(aobj.ownProperties)
@@ -967,6 +1080,20 @@ def comparable(dumps):
             continue
         out[owner] = [[a, {'cmd': x['cmd'], 'props': x['props'], 'datainfo': x['datainfo'], 'export': x['export']}]
                       for a, x in d['acc']]
+    return out
+
+
+def comparable_m(dumps):
+    """the module-level part the model has to predict: per class every Property object of its propertyDict (value,
+    default, extname, export), per instance the value of every property but the ones set from the class chain"""
+    out = {}
+    for owner, d in dumps.items():
+        if 'mprops' not in d:
+            continue
+        if owner.startswith('cls:'):
+            out[owner] = d['mprops']
+        else:
+            out[owner] = [x for x in d['mvals'] if x[0] not in AUTO_PROPS]
     return out
 
 
@@ -1049,7 +1176,7 @@ def requests_for(program, init, steps, second=None):
 
 
 def first_diff(model, impl):
-    for owner in sorted((set(model) - {'cls:Module'}) | set(impl)):
+    for owner in sorted(set(model) | set(impl)):
         if model.get(owner) != impl.get(owner):
             m, i = model.get(owner), impl.get(owner)
             if isinstance(m, list) and isinstance(i, list):
@@ -1075,6 +1202,18 @@ def evaluate(ctx, program, init, steps, second, answers, laters):
                 [(m, st['after'], st['part'], i) for i, (m, st) in enumerate(zip(model['steps'], steps))]
         for m, dumps, part, where in snaps:
             d = first_diff(m['dumps'], comparable(dumps))
+            if d is None:
+                d = first_diff({o: [y for y in x if o.startswith('cls:') or y[0] not in AUTO_PROPS] for o, x in m['mdumps'].items()
+                                if o in dumps and 'mprops' in dumps[o]}, comparable_m(dumps))
+                if d is not None:
+                    d['owner'] += ' (module properties)'
+            if d is None:       # what exportProperties() shows of an instance
+                mexp = {o: sorted(x for x in v if x[0] not in AUTO_PROPS) for o, v in m['mexport'].items() if o.startswith('inst:')}
+                iexp = {o: sorted(x for x in v['mprops'] if x[0] not in AUTO_PROPS) for o, v in dumps.items()
+                        if o.startswith('inst:') and 'mprops' in v}
+                d = first_diff({o: x for o, x in mexp.items() if o in iexp}, iexp)
+                if d is not None:
+                    d['owner'] += ' (exportProperties)'
             if d is not None:
                 dis = {'case': program, 'model': d['model'], 'impl': d['impl'], 'at': where, 'owner': d['owner']}
                 break
@@ -1217,8 +1356,17 @@ def run(ctx):
         for st in steps:
             res.count('op.%s.%s' % (st['op']['op'], st['outcome']))
             if st['op']['op'] == 'class':
-                for _, d in st['op']['decls']:
-                    res.count('decl.' + d['k'] + ('' if d.get('inherit', True) else '.noinherit'))
+                for a, d in st['op']['decls']:
+                    if a in MPROP_ROOT or a in MPROP_CUSTOM:
+                        res.count('decl.module-property.' + d['k'])
+                    else:
+                        res.count('decl.' + d['k'] + ('' if d.get('inherit', True) else '.noinherit'))
+                    if d['k'] == 'param' and d.get('dt'):
+                        res.count('decl.datatype.' + str(d['dt']['t'] if isinstance(d['dt'], dict) else d['dt']))
+            elif st['op']['op'] == 'mutate':
+                res.count('mutate.%s%s.%s' % (st['op']['kind'], '.member' if st['op'].get('path') else '', st['outcome'].split(':')[0]))
+            elif st['op']['op'] == 'inst' and any(k in MPROP_ROOT or k in MPROP_CUSTOM for k in st['op']['cfg']):
+                res.count('inst.cfg.module-property.' + st['outcome'].split(':')[0])
         res.count('classes=%s' % min(ncls, 6))
         res.count('multi-inheritance' if multi else 'single-inheritance-only')
         if (multi or override) and ninst and ncls >= 2:
